@@ -57,6 +57,16 @@ fn completed_once(cx: &Ctx, prop: &'static str, sub: &SubInfo, out: &mut Vec<Fin
     }
 }
 
+/// a panic anywhere in the scenario defeats the operator's contract (the models otherwise judge only the prefix)
+fn no_panic(cx: &Ctx, prop: &'static str, out: &mut Vec<Finding>) {
+    if let Some((at, msg)) = cx.h.log.iter().enumerate().find_map(|(i, e)| match e {
+        Ev::Panic { message, location } => Some((i, format!("{message} at {location}"))),
+        _ => None,
+    }) {
+        out.push(finding(prop, format!("{prop}:panicked"), format!("the scenario panicked: {msg}"), at));
+    }
+}
+
 fn only_inst<'a>(cx: &'a Ctx, pup: u8, si: usize) -> Option<&'a InstInfo> {
     cx.insts.iter().find(|i| i.pup == pup && i.sub == Some(si))
 }
@@ -93,8 +103,8 @@ pub fn unary_model(t: &Topo, u: &[i64]) -> Vec<(usize, i64)> {
                 })
                 .collect()
         }
-        Topo::Take(n, _) => u.iter().enumerate().take(*n as usize).map(|(i, x)| (i, *x)).collect(),
-        Topo::Skip(n, _) => u.iter().enumerate().skip(*n as usize).map(|(i, x)| (i, *x)).collect(),
+        Topo::Take(n, _) => u.iter().enumerate().take(count_param(*n)).map(|(i, x)| (i, *x)).collect(),
+        Topo::Skip(n, _) => u.iter().enumerate().skip(count_param(*n)).map(|(i, x)| (i, *x)).collect(),
         _ => vec![],
     }
 }
@@ -217,7 +227,7 @@ fn c07_for(cx: &Ctx, si: usize) -> Vec<Finding> {
     }
     // completion
     let disposed = sub.disposed_at.as_ref().map(|d| d.0);
-    let n_take = if let Topo::Take(n, _) = t { Some(*n as usize) } else { None };
+    let n_take = if let Topo::Take(n, _) = t { Some(count_param(*n)) } else { None };
     let took_all = n_take.map_or(false, |n| u.len() >= n);
     // upstream ended by itself from inside the nth item's delivery (pushed re-entrantly while the sink was
     // handling that item), before take's own completion point: then that end is simply relayed
@@ -290,6 +300,7 @@ fn c07_for(cx: &Ctx, si: usize) -> Vec<Finding> {
     }
     // "completes the sink" / "complete exactly when upstream does": once
     completed_once(cx, "C07", sub, &mut out);
+    no_panic(cx, "C07", &mut out);
     out
 }
 
@@ -307,8 +318,8 @@ pub fn nt_c07(cx: &Ctx) -> bool {
         return false;
     }
     match t {
-        Topo::Take(n, _) => (*n as usize) <= vals.len(),
-        Topo::Skip(n, _) => (*n as usize) < vals.len() && *n > 0,
+        Topo::Take(n, _) => count_param(*n) <= vals.len(),
+        Topo::Skip(n, _) => (count_param(*n) < vals.len() && *n > 0) || *n == 255,
         Topo::Filter(p, _) => vals.iter().any(|v| pred_fn(*p, *v)) && vals.iter().any(|v| !pred_fn(*p, *v)),
         _ => true,
     }
@@ -486,6 +497,7 @@ fn c08_for(cx: &Ctx, si: usize) -> Vec<Finding> {
     } else if let Some((t, M::Terminate)) = &sub.terminal_at {
         out.push(finding("C08", "C08:early-completion", "the sink was completed before every member had completed".to_string(), *t));
     }
+    no_panic(cx, "C08", &mut out);
     out
 }
 
@@ -709,6 +721,7 @@ fn c09_for(cx: &Ctx, si: usize) -> Vec<Finding> {
         }
     }
     completed_once(cx, "C09", sub, &mut out);
+    no_panic(cx, "C09", &mut out);
     out
 }
 
@@ -819,8 +832,10 @@ fn c10_for(cx: &Ctx, si: usize) -> Vec<Finding> {
             out.push(finding("C10", "C10:tuple-outside-its-datum", format!("tuple {:?} was not delivered during the member datum that caused it", g.1), g.0));
         }
     }
+    // "every sink Pull reaches every member that is still running" does not depend on how a member's failure is
+    // reported: it is checked after a member Error too
+    pull_broadcast(cx, "C10", "combine", &ms, sub, &mut out);
     if horizon == usize::MAX {
-        pull_broadcast(cx, "C10", "combine", &ms, sub, &mut out);
         let all_done = ms.insts.iter().all(|i| {
             i.map_or(false, |i| matches!(&i.ended_at, Some((e, M::Terminate)) if sub.live_at(*e)))
         });
@@ -859,6 +874,7 @@ fn c10_for(cx: &Ctx, si: usize) -> Vec<Finding> {
         }
     }
     completed_once(cx, "C10", sub, &mut out);
+    no_panic(cx, "C10", &mut out);
     out
 }
 
@@ -1083,6 +1099,7 @@ fn c11_for(cx: &Ctx, si: usize) -> Vec<Finding> {
         }
     }
     completed_once(cx, "C11", sub, &mut out);
+    no_panic(cx, "C11", &mut out);
     out
 }
 
